@@ -34,18 +34,18 @@ def DT.isLab : DT → Bool
 
 /-! ### the generic pass, parametrised by the parser's node function -/
 
-def termF (nf : PS → Lbl → PS × T) (st : PS) : DT → PS × T
+def termF {S : Type} (nf : S → Lbl → S × T) (st : S) : DT → S × T
   | .iri n => (st, .iri n)
   | .lit n => (st, .lit n)
   | .lab l => nf st l
 
-def gnameF (nf : PS → Lbl → PS × T) (into : T) (st : PS) : Option DT → PS × T
+def gnameF {S : Type} (nf : S → Lbl → S × T) (into : T) (st : S) : Option DT → S × T
   | none => (st, into)
   | some g => termF nf st g
 
 /-- one statement; `gen = false`: a blank-node predicate makes the parser give the statement up
     after it has made the subject -/
-def quadF (nf : PS → Lbl → PS × T) (gen : Bool) (into : T) (st : PS) (q : DQuad) : PS × Option Quad :=
+def quadF {S : Type} (nf : S → Lbl → S × T) (gen : Bool) (into : T) (st : S) (q : DQuad) : S × Option Quad :=
   let s := termF nf st q.1
   if !gen && q.2.1.isLab then (s.1, none)
   else
@@ -59,7 +59,7 @@ def consOpt (x : Option Quad) (xs : List Quad) : List Quad :=
   | some q => q :: xs
   | none => xs
 
-def emitF (nf : PS → Lbl → PS × T) (gen : Bool) (into : T) : PS → Doc → PS × List Quad
+def emitF {S : Type} (nf : S → Lbl → S × T) (gen : Bool) (into : T) : S → Doc → S × List Quad
   | st, [] => (st, [])
   | st, q :: qs =>
     let r := quadF nf gen into st q
@@ -101,7 +101,7 @@ def ntNodeid (skolemize : Bool) (st : PS) (l : Lbl) : PS × T :=
   if skolemize then
     match l with
     | .named n => ((keepLabel st n).1, skolT (keepLabel st n).2)
-    | .anon _ => ((getOrNew st l).1, skolT (getOrNew st l).2)
+    | _ => ((getOrNew st l).1, skolT (getOrNew st l).2)
   else getOrNew st l
 
 /-- notation3.py `SinkParser.anonymousNode(ln)` for `_:ln`
@@ -116,14 +116,14 @@ def n3AnonymousNode (st : PS) (l : Lbl) : PS × T := getOrNew st l
 def xmlNode (preserve : Bool) (st : PS) (l : Lbl) : PS × T :=
   match l with
   | .named n => if preserve = false then getOrNew st l else keepLabel st n
-  | .anon _ => getOrNew st l
+  | _ => getOrNew st l
 
 /-- trix.py `TriXHandler.get_bnode`: `if self.preserve_bnode_ids: BNode(label) else: (dict get / BNode() / store)`;
     a `<graph>` without a name: `Graph(store=self.store)` — identifier `BNode()` -/
 def trixGetBnode (preserve : Bool) (st : PS) (l : Lbl) : PS × T :=
   match l with
   | .named n => if preserve then keepLabel st n else getOrNew st l
-  | .anon _ => getOrNew st l
+  | _ => getOrNew st l
 
 /-- jsonld.py `Parser._to_rdf_id` → `_bnode(bid)` (`if self.skolemize: return BNode(bid)`, else `_bnodes` get / `BNode()` / store),
     then `.skolemize()` when asked; a node object without `@id`, list cells: `BNode()` (`.skolemize()` when asked) -/
@@ -132,14 +132,14 @@ def jsonldNode (skolemize : Bool) (st : PS) (l : Lbl) : PS × T :=
   | .named n =>
     if skolemize then ((keepLabel st n).1, skolT (keepLabel st n).2)
     else getOrNew st l
-  | .anon _ => ((getOrNew st l).1, wrapT skolemize (getOrNew st l).2)
+  | _ => ((getOrNew st l).1, wrapT skolemize (getOrNew st l).2)
 
 /-- hext.py `_parse_hextuple`: `BNode(label)` (subject, `localId` value, graph column), `.skolemize()` when asked;
     no anonymous-node syntax -/
 def hextNode (skolemize : Bool) (st : PS) (l : Lbl) : PS × T :=
   match l with
   | .named n => ((keepLabel st n).1, wrapT skolemize (keepLabel st n).2)
-  | .anon _ => ((getOrNew st l).1, wrapT skolemize (getOrNew st l).2)
+  | _ => ((getOrNew st l).1, wrapT skolemize (getOrNew st l).2)
 
 inductive Parser
   | nt | nquads | turtle | n3 | trig | xml | trix | jsonld | hext
@@ -215,5 +215,61 @@ def parseO (o : LOpts) (d : DS) (m0 : LMap) (into : T) (doc : Doc) : DS × LMap 
 def parseShared (o : LOpts) : DS → LMap → List (T × Doc) → DS × LMap
   | d, m, [] => (d, m)
   | d, m, x :: rest => parseShared o (parseO o d m x.1 x.2).1 (parseO o d m x.1 x.2).2 rest
+
+/-! ### Notation3 / Turtle / TriG: `_:x` scoping, formulae, nodes held by the recursive descent
+
+  `SinkParser.node()` at `{`:  `parentAnonymousNodes = self._anonymousNodes; self._anonymousNodes = {}` …
+  statements of the formula … at `}`: `self._anonymousNodes = parentAnonymousNodes` — a formula has its own label
+  scope, and the enclosing scope is back afterwards, without anything the formula added.  A TriG graph block does
+  not touch `_anonymousNodes` (one scope for the whole document).  `[]`, `( )` cells, path nodes (`blankNode()` →
+  `RDFSink.newBlankNode`: `counter += 1; BNode("n<uuid>b<counter>")`, in a formula `Formula.newBlankNode`) and the
+  formula's own node (`newFormula()` → `Formula.id()`) are made once and kept in local variables of the recursive
+  descent: `held`, which no `{`/`}` resets.  The recursion itself is given as the event sequence it performs. -/
+
+inductive Ev
+  | stmt (q : DQuad)      -- `makeStatement` in the current context
+  | opn                   -- `{`
+  | cls                   -- `}`
+  deriving DecidableEq, Repr
+
+structure N3S where
+  fresh : Nat
+  cur : LMap              -- `self._anonymousNodes`
+  stack : List LMap       -- `parentAnonymousNodes` of the enclosing `{`s
+  held : LMap             -- locals of the recursion: `[]`, `( )`, path and formula nodes
+  deriving Repr
+
+/-- `anonymousNode(ln)` for `_:ln` (current scope's dict); `blankNode()` / `newFormula()` for the others -/
+def n3Node (s : N3S) (l : Lbl) : N3S × T :=
+  match l with
+  | .named _ =>
+    match alookup s.cur l with
+    | some b => (s, .bn b)
+    | none => ({ s with fresh := s.fresh + 1, cur := (l, s.fresh) :: s.cur }, .bn s.fresh)
+  | _ =>
+    match alookup s.held l with
+    | some b => (s, .bn b)
+    | none => ({ s with fresh := s.fresh + 1, held := (l, s.fresh) :: s.held }, .bn s.fresh)
+
+def n3Open (s : N3S) : N3S := { s with stack := s.cur :: s.stack, cur := [] }
+
+def n3Close (s : N3S) : N3S :=
+  match s.stack with
+  | m :: ms => { s with cur := m, stack := ms }
+  | [] => s
+
+def n3Run (into : T) : N3S → List Ev → N3S × List Quad
+  | s, [] => (s, [])
+  | s, .stmt q :: es =>
+    let r := quadF n3Node true into s q
+    let rest := n3Run into r.1 es
+    (rest.1, consOpt r.2 rest.2)
+  | s, .opn :: es => n3Run into (n3Open s) es
+  | s, .cls :: es => n3Run into (n3Close s) es
+
+/-- `TurtleParser.parse` / `N3Parser.parse` / `TrigParser.parse`: a new `SinkParser` (empty dicts) over the document -/
+def parseN3 (d : DS) (into : T) (evs : List Ev) : DS :=
+  let r := n3Run into ⟨d.fresh, [], [], []⟩ evs
+  { quads := addAll d.quads r.2, fresh := r.1.fresh }
 
 end RV.C12
